@@ -5,7 +5,8 @@ RadioRegistrationService / LocationProtocol / TextMessageProtocol / RadioControl
 RadioIP.as_bytes / from_bytes, HRNP.as_bytes / from_bytes / __len__ / verify_checksum, HSTRP.as_bytes / from_bytes,
 HSTRPPacketType / HSTRPOptions .as_bytes / from_bytes / __len__.
 
-The two checksum loops are verified once, by loop cutting, against independent specifications (spec/hytera.py); every frame
+The two checksum functions are verified once, on word-level octets (integer variables, linear integer arithmetic in z3 - no
+loop is cut, so the proof does not depend on how the sums are written), against independent specifications; every frame
 contract then sees them through stubs that return an abstract checksum value recorded against the octets it was computed
 over (ghost), so 'the checksum field is the checksum of exactly opcode..payload' is a lookup, not a re-computation.
 GPS text fields and str -> UTF-16 conversion are float / string formatting: bounded native enumeration (labelled bounded)."""
@@ -84,7 +85,7 @@ def _bits8(vc, x):
 
 
 # ---------------------------------------------------------------------------------------------- HDAP checksum
-@stub("HDAP.get_hdap_checksum", "okdmr.dmrlib.hytera.pdu.hdap:HDAP.get_hdap_checksum", provided_by="HDAP.get_hdap_checksum")
+@stub("HDAP.get_hdap_checksum", "okdmr.dmrlib.hytera.pdu.hdap:HDAP.get_hdap_checksum", provided_by="HDAP.get_hdap_checksum.word_level")
 def hdap_ck_by_contract(checked_data):
     """what callers see: ONE octet, a function of the checked octets [contract HDAP.get_hdap_checksum: the octet c with
     c + sum(checked octets) = 0x32 mod 256].  The value is abstract (fresh atoms); the ghost record ties it to its argument."""
@@ -109,55 +110,31 @@ def CK(vc, data):
     return None
 
 
-@contract("HDAP.get_hdap_checksum", "okdmr.dmrlib.hytera.pdu.hdap:HDAP.get_hdap_checksum", ["C12"])
-def hdap_checksum(vc, n, phase):
-    """loop cut with the ghost G(k) = sum of the first k octets modulo 256 (an arbitrary octet g stands for G(k))"""
-    d = vc.bytes_(n, "d")
+@contract("HDAP.get_hdap_checksum.word_level", "okdmr.dmrlib.hytera.pdu.hdap:HDAP.get_hdap_checksum", ["C12"],
+          note="the same function on WORD-LEVEL octets (each octet an integer variable 0..255, linear integer arithmetic in z3): no loop is cut, so the proof does not depend on how the sum is written")
+def hdap_checksum_words(vc, n):
     if vc.mode == "native":
+        d = vc.bytes_(n, "d")
         r = HDAP.get_hdap_checksum(d)
-        vc.prove("post_checksum_plus_sum_is_0x32_mod_256", r == bytes([S.hdap_checksum(d)]) and (r[0] + sum(d)) % 256 == 0x32)
+        vc.prove("checksum_plus_sum_is_0x32_mod_256", len(r) == 1 and (r[0] + sum(d)) % 256 == 0x32)
         return
-    from pyvc import cut
+    from pyvc.zint import ZBytes
 
-    g = vc.uint(8, "g")
-
-    def state(kk, loc, it):
-        return (g if kk else 0,)  # G(0) = 0
-
-    def realise(w):  # octets whose first-k sum is the counter-model's g: the first octet carries it, the others before k are 0
-        k = n if phase in ("init", "post") else int(phase)
-        if k == 0:
-            return w
-        d = bytearray.fromhex(w["d"]["hex"])
-        d[:k] = bytes([int(w["g"])]) + bytes(k - 1)
-        w["d"] = {"hex": d.hex()}
-        return w
-
-    vc.realise = realise
-
-    def check(kk, loc, carried):
-        csum = carried[0]
-        if kk == 0:
-            vc.prove("invariant_init_sum_is_zero", vc.eq(csum, 0))
-        else:
-            vc.prove("invariant_preserved_sum_grows_by_the_octet_mod_256", vc.eq(csum, vc.from_bits(S.add_bits(_bits8(vc, g if kk > 1 else 0), _bits8(vc, d[kk - 1])), msb_first=False)))
-
-    st, ret = cut.run_cut(vc, HDAP.get_hdap_checksum, 0, ["csum"], phase, state, check, (d,))
-    if st == "post":
-        vc.prove("post_returns_one_octet", len(ret) == 1)
-        vc.prove("post_checksum_plus_sum_is_0x32_mod_256", vc.eq(vc.from_bits(S.add_bits(_bits8(vc, ret[0]), _bits8(vc, g if n else 0)), msb_first=False), 0x32))
+    xs = [vc.nat("d%d" % i, bits=8, hi=255) for i in range(n)]
+    vc.realise = lambda w: dict(w, d={"hex": bytes(int(w["d%d" % i]) & 255 for i in range(n)).hex()})
+    r = HDAP.get_hdap_checksum(ZBytes(xs))
+    total = 0
+    for x in xs:
+        total = x + total
+    vc.prove("returns_one_octet", len(r) == 1)
+    c = r[0]
+    vc.prove("checksum_is_an_octet", vc.and_(c >= 0, c <= 255) if not isinstance(c, int) else 0 <= c <= 255)
+    vc.prove("checksum_plus_sum_is_0x32_mod_256", ((c + total) % 256) == 0x32)
 
 
-def _ck_shapes(tier):
-    out = []
-    for n in ((0, 1, 2, 3, 9, 64) if tier == "quick" else list(range(0, 66)) + [300]):
-        ks = range(n) if (n <= 9 or tier != "quick") else (0, 1, n // 2, n - 1)
-        for p in ["init", "post"] + list(ks):
-            out.append(dict(n=n, phase=p))
-    return out
+hdap_checksum_words.shapes = lambda tier: [dict(n=n) for n in ((0, 1, 2, 9, 64, 300) if tier == "quick" else (0, 1, 2, 3, 9, 64, 65, 300, 1000))]
 
 
-hdap_checksum.shapes = _ck_shapes
 
 
 # ---------------------------------------------------------------------------------------------- builders
@@ -350,7 +327,7 @@ def hrnp_checked_octets(h):
     return cd + (b"\x00" if len(cd) % 2 else b"")
 
 
-@stub("HRNP.verify_checksum", "okdmr.dmrlib.hytera.pdu.hrnp:HRNP.verify_checksum", provided_by="HRNP.verify_checksum")
+@stub("HRNP.verify_checksum", "okdmr.dmrlib.hytera.pdu.hrnp:HRNP.verify_checksum", provided_by="HRNP.verify_checksum.word_level")
 def hrnp_ck_by_contract(self, checksum=b"\x00\x00"):
     """what callers see: (given checksum == c, c as 2 octets) where c is a function of the checked octets of self [contract
     HRNP.verify_checksum: the ones-complement of their ones-complement 16-bit sum]; abstract value + ghost record"""
@@ -389,104 +366,62 @@ def bare_hrnp(vc, opcode, n):
     return h
 
 
-@contract("HRNP.verify_checksum", "okdmr.dmrlib.hytera.pdu.hrnp:HRNP.verify_checksum", ["C12", "C04"])
-def hrnp_checksum(vc, opcode, n, phase, given):
-    """summation loop cut with the functional invariant  check_k = G(k) = integer sum of the first k big-endian 16-bit words
-    (a word-level z3 term over the input bits); the carry-folding `while`, the inversion and the comparison run on G(n) in
-    the post phase and are compared with the arithmetic definition (reduction modulo 65535)"""
-    h = bare_hrnp(vc, opcode, n)
-    arg = vc.bytes_(2, "given") if given == "bytes" else vc.uint(16, "given")
-    want_cd = hrnp_checked_octets(h)
+@contract("HRNP.verify_checksum.word_level", "okdmr.dmrlib.hytera.pdu.hrnp:HRNP.verify_checksum", ["C12", "C04"],
+          note="the same function on WORD-LEVEL fields and octets (integer variables, linear integer arithmetic in z3): no loop is cut")
+def hrnp_checksum_words(vc, opcode, n, given):
     if vc.mode == "native":
+        h = bare_hrnp(vc, opcode, n)
+        arg = vc.bytes_(2, "given") if given == "bytes" else vc.uint(16, "given")
         ok, ck = h.verify_checksum(arg)
-        want = S.ones_complement16(want_cd)
-        vc.prove("post_checksum_is_the_ones_complement_of_the_folded_sum", ck == want.to_bytes(2, "big"))
-        vc.prove("post_flag_is_equality_with_the_given_checksum", ok == (int.from_bytes(ck, "big") == (arg if isinstance(arg, int) else int.from_bytes(arg, "big"))))
+        want = S.ones_complement16(hrnp_checked_octets(h))
+        vc.prove("checksum_is_the_ones_complement_of_the_folded_word_sum", ck == want.to_bytes(2, "big"))
+        vc.prove("flag_is_equality_with_the_given_checksum", ok == (want == (arg if isinstance(arg, int) else int.from_bytes(arg, "big"))))
         return
-    from pyvc import cut
-    from pyvc.zint import SZInt
-    import z3
+    from pyvc.zint import ZBytes
 
-    def G(kk):  # the functional invariant: the integer sum of the first kk big-endian words of the checked octets
-        t = SZInt(z3.IntVal(0))
-        for i in range(kk):
-            t = t + (want_cd[2 * i] * 256 + want_cd[2 * i + 1])
-        return t
-
-    def state(kk, loc, it):
-        return (G(kk),)
-
-    def check(kk, loc, carried):
-        chk = carried[0]
-        if kk == 0:
-            # (whatever the local is called: the one octet string of that length the function has assembled by now)
-            cand = [v for k, v in loc.items() if not k.startswith("__") and hasattr(v, "__len__") and not isinstance(v, (str, list, tuple, dict)) and len(v) == len(want_cd)]
-            vc.prove("checked_octets_are_header_length_payload_zero_padded", any(vc.eq(v, want_cd) is not False and bool(vc._b(vc.eq(v, want_cd))) for v in cand) if vc.mode == "native" else vc.or_(*[vc.eq(v, want_cd) for v in cand]))
-            vc.prove("invariant_init_sum_is_zero", vc.eq(chk, 0))
-        else:
-            vc.prove("invariant_preserved_sum_grows_by_the_word", chk == G(kk))
-
-    nw = len(want_cd) // 2
-    fixed = h.opcode.value + (12 + (n if opcode == "DATA" else 0))  # octets / words that are not inputs: opcode, length field
+    o = lambda name: vc.nat(name, bits=8, hi=255)
+    h = HRNP.__new__(HRNP)
+    hdr, ver, blk, src, dst = o("hdr"), o("ver"), o("blk"), o("src"), o("dst")
+    pn = vc.nat("pn", bits=16, hi=0xFFFF)
+    h.header, h.version = ZBytes([hdr]), ZBytes([ver])
+    h.block_number, h.source, h.destination, h.packet_number = blk, src, dst, pn
+    h.opcode = HRNPOpcodes[opcode]
     nd = n if opcode == "DATA" else 0
-    cap = [0xFFFF, 0xFF00, 0xFFFF, 0xFFFF] + [0xFFFF] * (nd // 2) + ([0xFF00] if nd % 2 else [])  # hdr|ver, blk, src|dst, pn, payload words
-    g = None
-    if phase == "post":
-        # the fold / invert / compare tail runs on an ARBITRARY sum g in the reachable interval (a superset of the sums
-        # G(n) can take); a counter-model g is turned into inputs with that word sum by realise()
-        g = vc.nat("g", bits=24)
-        vc.assume(vc.and_(g >= fixed, g <= fixed + sum(cap)))
+    d = [o("d%d" % i) for i in range(nd)]
+    h.data = AnyHDAP(ZBytes(d)) if opcode == "DATA" else None
+    g = vc.nat("given", bits=16, hi=0xFFFF)
+    arg = g if given == "int" else ZBytes([g >> 8, g & 0xFF])
 
-        def realise(w):
-            rest = int(w["g"]) - fixed
-            fine = sum(c for c in cap if c == 0xFFFF)
-            coarse = 0 if rest <= fine else -(-(rest - fine) // 256) * 256  # what the high-octet-only words must carry
-            rest -= coarse
-            vals = []
-            for c in cap:
-                v = min(rest, c) if c == 0xFFFF else min(coarse, c)
-                vals.append(v)
-                if c == 0xFFFF:
-                    rest -= v
-                else:
-                    coarse -= v
-            if rest or coarse:
-                return None
-            w["hdr"], w["ver"] = {"hex": "%02x" % (vals[0] >> 8)}, {"hex": "%02x" % (vals[0] & 255)}
-            w["blk"], w["src"], w["dst"], w["pn"] = vals[1] >> 8, vals[2] >> 8, vals[2] & 255, vals[3]
-            if nd:
-                w["d"] = {"hex": b"".join(v.to_bytes(2, "big") for v in vals[4:]).hex()[: 2 * nd]}
-            return w
+    def realise(w):
+        w = dict(w)
+        for k in ("hdr", "ver"):
+            w[k] = {"hex": "%02x" % int(w[k])}
+        w["d"] = {"hex": bytes(int(w.get("d%d" % i, 0)) for i in range(nd)).hex()}
+        if given == "bytes":
+            w["given"] = {"hex": "%04x" % int(w["given"])}
+        return w
 
-        vc.realise = realise
-
-    def state2(kk, loc, it):
-        return (g,) if phase == "post" else state(kk, loc, it)
-
-    st, ret = cut.run_cut(vc, HRNP.verify_checksum, 0, ["check"], phase, state2, check, (h, arg))
-    if st == "post":
-        ok, ck = ret
-        if vc.fork(g == 0):
-            want = 0xFFFF
-        else:
-            want = 0xFFFF - ((g - 1) % 0xFFFF + 1)
-        a = arg if given == "int" else be_int(arg)
-        vc.prove("post_checksum_is_the_ones_complement_of_the_folded_sum", vc.eq(be_int(ck), want) if isinstance(want, int) else want == be_int(ck))
-        # (stated on the two results: with the clause above, 'the flag says whether the given checksum is the right one')
-        vc.prove("post_flag_is_equality_with_the_given_checksum", vc.iff(ok, be_int(ck) == a))
+    vc.realise = realise
+    ok, ck = h.verify_checksum(arg)
+    # SPEC: big-endian 16-bit words of header (length field = 12 + payload length) and payload, zero padded
+    octets = [hdr, ver, blk, h.opcode.value, src, dst, pn >> 8, pn & 0xFF, (12 + nd) >> 8, (12 + nd) & 0xFF] + d + ([0] if nd % 2 else [])
+    total = 0
+    for i in range(0, len(octets), 2):
+        total = octets[i] * 256 + octets[i + 1] + total
+    if vc.fork(total == 0):
+        want = 0xFFFF
+    else:
+        want = 0xFFFF - ((total - 1) % 0xFFFF + 1)
+    got = be_int(ck)
+    vc.prove("returns_two_octets", len(ck) == 2)
+    vc.prove("checksum_is_the_ones_complement_of_the_folded_word_sum", got == want)
+    vc.prove("flag_is_equality_with_the_given_checksum", vc.iff(ok, got == g))
 
 
-def _hck_shapes(tier):
-    out = []
-    for opcode, n in [("DATA", n) for n in ((0, 1, 2, 7, 40) if tier == "quick" else (0, 1, 2, 3, 7, 8, 40, 41, 300, 1001))] + [("CONNECT", 0), ("DATA_ACK", 0)]:
-        words = (10 + n + 1) // 2
-        ks = range(words) if tier != "quick" or words <= 6 else (0, 1, 4, 5, words // 2, words - 1)
-        for p in ["init", "post"] + list(ks):
-            out.append(dict(opcode=opcode, n=n, phase=p, given="bytes" if (n + len(str(p))) % 2 else "int"))
-    return out
+hrnp_checksum_words.shapes = lambda tier: [dict(opcode=o_, n=n, given=("int", "bytes")[(n + i) % 2]) for i, (o_, n) in enumerate(
+    [("DATA", n) for n in ((0, 1, 2, 7, 40, 301) if tier == "quick" else (0, 1, 2, 3, 7, 8, 40, 41, 300, 301, 1001))] + [("CONNECT", 0), ("DATA_ACK", 0), ("CLOSE", 0)])]
 
 
-hrnp_checksum.shapes = _hck_shapes
 
 
 # ---------------------------------------------------------------------------------------------- HRNP frames
